@@ -226,6 +226,12 @@ def _translate_stmt(st, aliases, where):
         if isinstance(c.func, ast.Attribute) and c.func.attr == "close" and isinstance(c.func.value, ast.Name) \
                 and c.func.value.id == st.target.id and not c.args:
             return [".closeExitSockets"]
+    # while self.<children>: … await <child>.unload() / await self.ipv8.unload_overlay(<child>)
+    if isinstance(st, ast.While) and isinstance(st.test, ast.Attribute) and isinstance(st.test.value, ast.Name) \
+            and st.test.value.id == "self" and st.test.attr != "bootstrappers":
+        body = " ; ".join(_src(b) for b in st.body)
+        if f"self.{st.test.attr}.pop" in body and ("unload_overlay(" in body or ".unload()" in body) and "await " in body:
+            return [".unloadChildren"]
     # for circuit_id in list(self.<dict>.keys()): self.remove_x(circuit_id, …, remove_now=True, …)
     if isinstance(st, ast.For) and len(st.body) == 1 and not st.orelse:
         inner = st.body[0]
@@ -312,6 +318,16 @@ def unload_script(scan, name):
         return ops
 
     return of(0)
+
+
+def owns_children(scan, name, overlay_names):
+    """Does the class (or an overlay base) construct another shipped overlay class somewhere in its methods?"""
+    for c in _chain(scan, name):
+        for node in ast.walk(scan[c][2]):
+            if isinstance(node, ast.Call) and isinstance(node.func, ast.Name) and node.func.id in overlay_names \
+                    and node.func.id != name:
+                return True
+    return False
 
 
 def init_facts(scan, name):
@@ -455,8 +471,9 @@ def translate():
     for n in names:
         script = unload_script(scan, n)
         proxy, cache, db = init_facts(scan, n)
+        kids = owns_children(scan, n, set(names))
         rows.append(f"  {{ name := \"{n}\", installsProxy := {str(proxy).lower()}, hasCache := {str(cache).lower()}, "
-                    f"hasDb := {str(db).lower()},\n    script := [{', '.join(script)}] }}")
+                    f"hasDb := {str(db).lower()}, ownsChildren := {str(kids).lower()},\n    script := [{', '.join(script)}] }}")
         info.append({"name": n, "script": script, "proxy": proxy, "cache": cache, "db": db})
     lines.append(",\n".join(rows))
     lines += ["]", "", "end Ipv8.C11.Gen", ""]
